@@ -298,6 +298,10 @@ pub fn gen_rule(r: &mut Rng, p: &Profile) -> String {
     if p.important && !exception && modifier == 0 {
         opts.push("important".into());
     }
+    // an exception may carry `important` too; it stays an exception
+    if p.important && exception && modifier == 0 && r.chance(1, 2) {
+        opts.push("important".into());
+    }
     if p.csp && modifier == 1 {
         // csp rules cannot carry content types
         opts.retain(|o| {
@@ -601,7 +605,7 @@ pub fn gen_cluster(r: &mut Rng, p: &Profile) -> Vec<String> {
             opts.push(o.to_string());
         }
         match r.below(16) {
-            0 if p.important && !exception => opts.push("important".into()),
+            0 if p.important && (!exception || r.chance(1, 3)) => opts.push("important".into()),
             1 if p.tags => opts.push(format!("tag={}", r.ps(TAGS))),
             2 if p.domains => opts.push(format!("domain={}", r.ps(HOSTS))),
             3 if p.redirect => opts.push(format!("redirect={}", r.ps(&["noop.js", "1x1.gif"]))),
